@@ -10,6 +10,11 @@ mod values;
 mod ops;
 mod lexs;
 mod parses;
+mod builds;
+mod heaps;
+mod lists;
+mod opts;
+mod runs;
 
 fn run_case(fields: &[&str]) -> String {
     match fields[0] {
@@ -19,6 +24,17 @@ fn run_case(fields: &[&str]) -> String {
         "LEX" => lexs::lex_case(fields),
         "CHARCLASS" => lexs::charclass_case(fields),
         "PARSE" => parses::parse_case(fields),
+        "BUILD" => builds::build_case(fields),
+        "LIT" => builds::lit_case(fields),
+        "SYM" => builds::sym_case(fields),
+        "HEAP" => heaps::heap_case(fields),
+        "CACHE" => heaps::cache_case(fields),
+        "LIST" => lists::list_case(fields),
+        "OPT" => opts::opt_case(fields),
+        "CLONE" => opts::clone_case(fields),
+        "RUN" => runs::run_case(fields),
+        "PROG" => runs::prog_case(fields),
+        "MULTI" => runs::multi_case(fields),
         s => format!("UNKNOWN-SUITE {}", s),
     }
 }
